@@ -100,6 +100,12 @@ def _int_row(indexes, n, i):
         c[i] = 100
         return c
     out += _encl(seti)
+
+    def deli():
+        c = list(l)
+        del c[i]
+        return c
+    out += _encl(deli)
     c = list(l)
     c.insert(i, 100)
     out += [c.index(100)] + c
@@ -139,6 +145,19 @@ def sweep(ctx: common.Ctx):
         exp = [bisect.bisect_left(list(l), x) for l in itertools.product(bvals, repeat=k) for x in xs]
         cases.append(f'mkpcase 2 {k} [] {coq_zlist(bvals)} {coq_zlist(xs)} {coq_zlist(exp)}')
         descr.append(('bisect_left', k))
+        ctx.count('pyseq_sweep_points', len(exp))
+    rvals, rxs = [0, 1, 2], [0, 1, 2, 3]
+    for k in range(0, 5):
+        exp = []
+        for l in itertools.product(rvals, repeat=k):
+            for x in rxs:
+                def rem(l=l, x=x):
+                    c = list(l)
+                    c.remove(x)
+                    return c
+                exp += _encl(rem)
+        cases.append(f'mkpcase 3 {k} [] {coq_zlist(rvals)} {coq_zlist(rxs)} {coq_zlist(exp)}')
+        descr.append(('list.remove', k))
         ctx.count('pyseq_sweep_points', len(exp))
     bad = ctx.run_coq_cases('pyseq', PREAMBLE, 'pcase', 'check_pcase', cases, chunk=1)
     for i in bad[:3]:
@@ -436,7 +455,7 @@ class Gen:
             return {'s': self.str_value()}
         return self.raw_spec(vs['tags'])
 
-    def op(self, registered: list[str], nraw: int, nview: dict[str, int]) -> list:
+    def op(self, registered: list[str], nraw: int, nview: dict[str, int], keys: Optional[dict] = None) -> list:
         rng, scn = self.rng, self.scn
         unreg = [v for v in scn.view_specs if v not in registered]
         if unreg and (not registered or rng.random() < 0.15):
@@ -472,11 +491,12 @@ class Gen:
         kinds = ['v_get', 'v_get', 'v_len', 'v_iter', 'v_set', 'v_set', 'v_set', 'v_del', 'v_del', 'v_insert',
                  'v_insert', 'v_append', 'v_extend', 'v_pop', 'v_pop', 'v_remove', 'v_discard', 'v_clear']
         if scn.view_specs[v]['mapping']:
-            kinds += ['m_get', 'm_contains', 'm_del', 'm_set', 'm_set', 'm_pop', 'm_pop', 'm_keys'] * 2
+            kinds += ['m_get', 'm_contains', 'm_del', 'm_set', 'm_set', 'm_pop', 'm_pop', 'm_keys', 'm_values',
+                      'm_items'] * 2
         k = rng.choice(kinds)
         if k == 'v_clear' and rng.random() < 0.7:
             k = 'v_insert'
-        if k in ('v_len', 'v_iter', 'v_clear', 'm_keys'):
+        if k in ('v_len', 'v_iter', 'v_clear', 'm_keys', 'm_values', 'm_items'):
             return [k, v]
         if k in ('v_get', 'v_del'):
             return [k, v, gen_idx(rng, n)]
@@ -499,6 +519,9 @@ class Gen:
                 return [k, v, {'ref': rng.randrange(n)}]
             return [k, v, self.view_spec(v)]
         key = 'k' + str(rng.randint(0, 4))
+        present = (keys or {}).get(v) or []
+        if present and rng.random() < 0.6:
+            key = rng.choice(present)
         if k in ('m_get', 'm_contains', 'm_del'):
             return [k, v, key]
         if k == 'm_set':
@@ -733,7 +756,11 @@ class Runner:
             if not self.same_list(vname, got, exp_list):
                 what = 'the resulting list is not the one the same operation gives on a Python list'
             elif exp_ret is not _DEFAULT:
-                if isinstance(exp_ret, list):
+                if isinstance(exp_ret, list) and op[0][0] == 'm':
+                    if not (isinstance(ret, list) and len(ret) == len(exp_ret)
+                            and all(a is b or a == b for a, b in zip(ret, exp_ret))):
+                        what = 'keys()/values()/items() differ from the ordered first-match mapping'
+                elif isinstance(exp_ret, list):
                     if not (isinstance(ret, list) and self.same_list(vname, ret, exp_ret)):
                         what = 'returned a different list than a Python list does'
                 elif op[0] == 'm_pop' and not (ret is exp_ret or ret == exp_ret):
@@ -770,6 +797,14 @@ class Runner:
             return [(0, 0, 1 if ret else 0)]
         if k == 'm_keys':
             return [(0, scn.code(('k', x)), 0) for x in ret]
+        if k == 'm_values':
+            if scn.view_specs[vname]['mapping'] == 'raw':
+                return [scn.elem(x) for x in ret]
+            return [(0, 0, scn.code(('mv', repr(x)))) for x in ret]
+        if k == 'm_items':
+            if scn.view_specs[vname]['mapping'] == 'raw':
+                return [scn.elem(x) for _, x in ret]
+            return [(0, scn.code(('k', kk)), scn.code(('mv', repr(x)))) for kk, x in ret]
         if k in ('m_get', 'm_pop'):
             if ret is _DEFAULT:
                 return [(-1, 0, 0)]
@@ -935,6 +970,12 @@ class Runner:
         rawmap = scn.view_specs[v]['mapping'] == 'raw'
         if k == 'm_keys':
             return f'(MKeys {vi})', lambda: list(w.keys()), (None, Cb, [x.key for x in Fb])
+        if k == 'm_values':
+            return (f'(MValues {vi} {coq_bool(rawmap)})', lambda: list(w.values()),
+                    (None, Cb, list(Fb) if rawmap else [x.value for x in Fb]))
+        if k == 'm_items':
+            return (f'(MItems {vi} {coq_bool(rawmap)})', lambda: list(w.items()),
+                    (None, Cb, [(x.key, x) if rawmap else (x.key, x.value) for x in Fb]))
         key = op[2]
         kc = scn.code(('k', key))
         pos = next((i for i, x in enumerate(Fb) if x.key == key), None)
@@ -997,7 +1038,8 @@ def gen_history(rng, n_ops: int):
     for _ in range(n_ops):
         nraw = len(r.items())
         nview = {v: len(r.filtered(v)) for v in r.registered}
-        op = g.op(r.registered, nraw, nview)
+        keys = {v: [x.key for x in r.filtered(v)] for v in r.registered if r.scn.view_specs[v]['mapping']}
+        op = g.op(r.registered, nraw, nview, keys)
         scn_ops.append(op)
         if not r.step(op):
             break
@@ -1029,11 +1071,21 @@ def run_all(ctx: common.Ctx):
             ctx.monitor_failure(f['sig'], f['what'], {'scenario': name, 'layout': layout, 'ops': ops})
         if r.steps:
             cases.append(coq_case(r))
-            metas.append((name, layout, ops))
+            metas.append((name, layout, ops, len(r.steps)))
     bad = ctx.run_coq_cases('views', PREAMBLE, 'vcase', 'check_case', cases, chunk=25)
     ctx.count('traces_validated_against_impl', len(cases) - len(bad))
+    if bad:
+        hyp_bad = set(ctx.run_coq_cases('hyps', PREAMBLE, 'vcase', 'check_hyps', [cases[i] for i in bad], chunk=25))
+        for n, i in enumerate(bad):
+            if n in hyp_bad and len([f for f in ctx.failures if f.signature == 'theorem-hypotheses']) < 3:
+                name, layout, ops = metas[i][:3]
+                ctx.fail('corr', 'theorem-hypotheses',
+                         'a hypothesis of the C10 theorems (AllInv on the dumped state, value of the view\'s type, node '
+                         'view under the mapping layer) is false on a state the implementation produced',
+                         {'scenario': name, 'layout': layout, 'ops': ops})
+    ctx.count('states_with_theorem_hypotheses_evaluated', sum(m[3] for m in metas) if metas and len(metas[0]) > 3 else 0)
     for i in bad[:3]:
-        name, layout, ops = metas[i]
+        name, layout, ops = metas[i][:3]
         small = shrink(ctx, name, layout, ops)
         asfound = not disagrees(ctx, *small, fn='check_case_asfound')
         ctx.fail('corr', 'views-correspondence',
@@ -1042,7 +1094,7 @@ def run_all(ctx: common.Ctx):
                  {'scenario': small[0], 'layout': small[1], 'ops': small[2]})
 
 
-def disagrees(ctx, name, layout, ops, fn='check_case') -> bool:
+def disagrees(ctx, name, layout, ops, fn='check_corr') -> bool:
     r = run_history(name, layout, ops)
     if not r.steps:
         return False
@@ -1109,6 +1161,7 @@ def run(ctx: common.Ctx):
         'a view is only given values of its own type; assigning a slice through a view requires a sequence of the slice\'s own length (documented restriction of RepeatedValueWrapper.__setitem__)',
         'elements are compared by class tag, key and value content, not by object identity, across the Coq boundary (identity is checked by the monitor)',
         'MutableSequence/MutableMapping mixin methods (reverse, +=, update, setdefault, ...) are compositions of the modelled primitives',
+        'theorem hypotheses (AllInv, values of the view\'s type, node view under the mapping layer) are evaluated inside Coq on every dumped implementation state (check_hyps; soundness: C10_dumped_state_hypothesis_sound)',
     ]
     ok = ctx.require_coq(['properties/C10'], extra_targets=['ViewsRun'])
     if ok:
